@@ -11,7 +11,11 @@ PATTERN = {1: (None, None), 2: (0, None), 3: (None, 0), 4: (1, None), 5: (-1, No
            8: (0, 2), 9: (-2, 0), 10: (1, 1), 11: (0, 0), 12: (None, -1), 13: (-2, -1)}
 
 # cone decorations: extra constraints that make the standard form an SOCP / exp-cone program
-CONES = ['none', 'norm2', 'square', 'sumsqr', 'exp', 'log', 'norm2+exp']
+CONES = ['none', 'norm2', 'square', 'sumsqr', 'exp', 'log', 'norm2+exp',
+         # robust / distributionally robust rows: the standard form is the COUNTERPART, whose cone variables are
+         # multipliers used directly in rows (not auxiliary copies), with coefficients such as the radius of the set
+         'ro-box', 'ro-norm2r2', 'ro-norm1', 'ro-norm2half', 'ro-sumsqr', 'dro-box', 'dro-norm2r2']
+SOC_CONES = ('norm2', 'square', 'sumsqr', 'ro-norm2r2', 'ro-norm2half', 'ro-sumsqr', 'dro-norm2r2')
 
 
 def build(job):
@@ -20,8 +24,21 @@ def build(job):
     d = job['decl']
     nc = len(d['pats'])
     var = job.get('variant', 0)
-    m = ro.Model()
+    cone = job.get('cone', 'none')
+    if cone.startswith('dro-'):
+        from rsome import dro
+        m = dro.Model(2)
+    else:
+        m = ro.Model()
     x = m.dvar(nc)
+    sets = {'box': lambda z: [z >= -1, z <= 2], 'norm2r2': lambda z: [rso.norm(z) <= 2], 'norm1': lambda z: [rso.norm(z, 1) <= 2],
+            'norm2half': lambda z: [rso.norm(z) <= 0.5], 'sumsqr': lambda z: [rso.sumsqr(z) <= 4]}
+    # (an ambiguity set must exist before the first constraint)
+    if cone.startswith('dro-'):
+        z = m.rvar(2)
+        fset = m.ambiguity()
+        fset[0].suppset(*sets[cone[4:]](z))
+        fset[1].suppset(z >= 0, z <= 1)
     for j, k in enumerate(d['pats']):
         lb, ub = PATTERN[k]
         if lb is not None:
@@ -29,7 +46,12 @@ def build(job):
         if ub is not None:
             m.st(x[j] <= ub)
     obj = np.array(d['obj'], dtype=float)
-    if job.get('sense', 'min') == 'min':
+    if cone.startswith('dro-'):
+        if job.get('sense', 'min') == 'min':
+            m.minsup(obj @ x, fset)
+        else:
+            m.maxinf(-obj @ x, fset)
+    elif job.get('sense', 'min') == 'min':
         m.min(obj @ x)
     else:
         m.max(-obj @ x)
@@ -41,8 +63,12 @@ def build(job):
             m.st(coef @ x <= r['rhs'])
         else:
             m.st(-coef @ x >= -r['rhs'])
-    cone = job.get('cone', 'none')
-    if 'norm2' in cone:
+    if cone.startswith('ro-'):
+        z = m.rvar(2)
+        m.st((x[0] * z[0] + x[nc - 1] * z[1] - x[nc - 1] <= 6).forall(*sets[cone[3:]](z)))
+    elif cone.startswith('dro-'):
+        m.st(x[0] * z[0] + x[nc - 1] * z[1] - x[nc - 1] <= 6)
+    elif 'norm2' in cone:
         m.st(rso.norm(x) <= 3)
     if cone == 'square':
         m.st(rso.square(x[0]) <= x[nc - 1] + 3)
@@ -86,7 +112,8 @@ def solve_formula(f, solver):
             sol = def_sol(f, display=False)
         else:
             import importlib
-            sol = importlib.import_module('rsome.%s_solver' % solver).solve(f, display=False)
+            # Gurobi may not return on non-convex / unbounded cone programs: bound its run time
+            sol = importlib.import_module('rsome.%s_solver' % solver).solve(f, display=False, **(dict(params={'TimeLimit': 10}) if solver == 'grb' else {}))
     except Exception as e:      # an interface that raises instead of reporting "no solution": C11's business
         _last_status[0] = 'interface-raised:%s:%s' % (solver, type(e).__name__)
         _raised.append(_last_status[0])
@@ -120,6 +147,20 @@ def _replay(job, phase):
     if out['pval'] is not None and out['dval'] is None and job.get('second'):
         out['dval2'] = solve_formula(D, job['second'])
         out['pval2'] = solve_formula(P, job['second'])
+    # ---- second stage (history): the model is extended AFTER its dual was produced; the dual requested then must be
+    #      the dual of the extended model (caches behind pupdate / dupdate in three layers)
+    if job.get('tid', 0) % 3 == 0 and out['pval'] is not None and abs(out['pval']) < 1e6:
+        phase[0] = 'extend'
+        nc = len(job['decl']['pats'])
+        # the compiled program minimises obj.x for both senses (max(-obj.x) is compiled as min obj.x): the cut
+        # obj.x >= p + 1 removes the current optimum and keeps the program bounded; new optimum p + 1 if still feasible
+        objv = np.array(job['decl']['obj'], dtype=float)
+        m.st(objv @ x >= out['pval'] + 1)
+        P3 = m.do_math()
+        D3 = m.do_math(primal=False)
+        out['pval3'] = solve_formula(P3, solver)
+        out['dval3'] = solve_formula(D3, solver)
+        out['dual_object_reused'] = D3 is D
     out['interface_raised'] = list(_raised)
     return out
 
